@@ -45,6 +45,20 @@ func checkFraming(name string, p parser, w []byte, res parseRes, allCuts bool) [
 			break
 		}
 	}
+	// C03b at the 16-bit boundary: a length that is truncated to uint16 somewhere shows only when 65,536 or
+	// more bytes follow. One input in eight (chosen by its content, so that replay is deterministic) gets
+	// padded to total lengths just above 65,536.
+	if len(w) > 0 && len(w) <= 4096 && (int(w[len(w)/2])+len(w))%8 == 0 {
+		for _, total := range []int{65536, 65536 + 40, 65536 + 64, 65536 + 96, 65536 + 200} {
+			x := make([]byte, total-len(w))
+			w2 := append(append([]byte{}, w...), x...)
+			r2 := p(w2)
+			if !r2.ok || len(r2.rem) != len(res.rem)+len(x) || !bytes.Equal(r2.ser, res.ser) || r2.obs != res.obs {
+				fails = append(fails, fail("C03", "append-64k:"+name, "%s: appending %d zero bytes (total %d) changed the parse (ok %v→%v, consumed %d→%d)", name, len(x), total, res.ok, r2.ok, len(consumed), len(w2)-len(r2.rem)))
+				break
+			}
+		}
+	}
 	// C03c: no proper prefix of a completely consumed encoding parses successfully
 	if len(res.rem) == 0 {
 		cuts := []int{}
